@@ -339,7 +339,12 @@ def run (op impl : String) : Ans :=
       let itoks := (impl.splitOn " ").filter (· != "")
       let endTok := itoks.getLast?.getD ""
       let verdict :=
-        if implHang impl then "FAIL:hang"
+        if implHang impl then
+          -- a watchdog of the harness expired: report what the observations before it already show, if anything
+          let pre := itoks.takeWhile fun t => !implHang t
+          match obsG (gts.take pre.length) pre with
+          | some obs => let v := judge obs; if v != "ok" then v else "FAIL:hang"
+          | none => "FAIL:hang"
         else if !endTok.startsWith "end:" then "FAIL:unparsable"
         else
           match obsG gts itoks.dropLast with
@@ -384,7 +389,13 @@ def run (op impl : String) : Ans :=
         let m := " ".intercalate (obs.map (·.1) ++ [endStr sE eE])
         let itoks := (impl.splitOn " ").filter (· != "")
         let verdict :=
-          if implHang impl then "FAIL:hang"
+          if implHang impl then
+            match (itoks.takeWhile fun t => !implHang t).findSome? (fun r => match parseSt7 r with
+                | some (a, _, l, _) => if l > 1 then some "FAIL:two-checkers" else if !a && l != 1 then some "FAIL:no-checker"
+                    else if a && l != 0 then some "FAIL:stray-checker" else none
+                | none => none) with
+            | some v => v
+            | none => "FAIL:hang"
           else if itoks.length != obs.length + 1 then "FAIL:unparsable"
           else
             let rec judgeX (i : Nat) : List String → List (String × Bool) → String
